@@ -320,6 +320,17 @@ func (ts *TunnelSet) checkKey(t *Tunnel) {
 		ts.checkFileKey(t)
 		return
 	}
+	if t.key == nil && t.faulted && len(t.hops) == 0 {
+		// The SOCKS5 ingress connects directly when it has no route for the
+		// destination; a fault can take the route away before the request is
+		// looked up. That connection never enters the mesh: it is not a tunnel.
+		for _, d := range ts.m.Net.Dials {
+			if d.Address == t.Addr && d.Node == ts.m.Nodes[t.Ingress].Name {
+				simrt.Probe("socks_direct_connection_without_route_after_fault")
+				return
+			}
+		}
+	}
 	if t.key == nil {
 		simrt.Failf("tunnel-without-key", "opened tunnel has no session key at the ingress", "tunnel %d (%s)", t.ID, t.Kind)
 	}
